@@ -614,3 +614,64 @@ def c18(c):
         exhaustive=False,
         assumptions=["same-sandbox use from several threads is outside the statement and not driven",
                      "ThreadSanitizer only sees races on accesses that happen; the uninstrumented guest .so is outside its view"]))
+
+
+# ----------------------------------------------------------------- C01 / C02
+def forms_plan(c, prop):
+    import sys
+    sys.path.insert(0, os.path.join(c.verif, "gen"))
+    import forms as fg
+    corpus = fg.c01_forms(c.thorough) if prop == "C01" else fg.c02_forms(c.thorough)
+    numbered = fg.number(corpus)
+    ntu = c.ncpu if prop == "C01" else 4
+    pre = '#include "forms_core.hpp"\nusing namespace fc;\nint main(int c, char** v) { return fc::run_all("%s", c, v); }\n' % prop
+    units, runs = [], []
+    variants = [("ct", EXC)]
+    if c.thorough:
+        variants.append(("rt", EXC + ["RLBOX_NO_COMPILE_CHECKS"]))   # library run-time mode: macro-guarded rejections must throw
+    for vn, defs in variants:
+        for i in range(ntu):
+            nm = "%s_%s_%02d" % (prop.lower(), vn, i)
+            units.append(dict(name=nm, kind="forms", build="asan0", defs=defs, preamble=pre, forms=numbered[i::ntu]))
+            runs.append(dict(unit=nm, label=nm, slice=i, nslices=ntu, count_distinct=(vn == "ct")))
+    return units, runs, len(numbered)
+
+
+@plan("C01")
+def c01(c):
+    units, runs, n = forms_plan(c, "C01")
+    return dict(units=units, runs=runs, evidence=dict(
+        level="exploration",
+        rule="form = one statement from a generated grammar: wrapper {tainted, tainted_volatile, tainted_opaque, sandbox_callback, app_pointer, "
+             "tainted_boolean_hint, tainted_int_hint} x underlying type {bool, char, int, unsigned, long, unsigned long long, enum, float, double, int*, "
+             "int**, function pointer (+ short, unsigned char, const char* in the thorough tier), int[4], registered struct} x context {unary and binary "
+             "operators with plain/tainted/volatile operands on either side, compound assignments, increments, subscripts, address-of, dereference, "
+             "initialisation/assignment of plain variables, bool conversion, static/C/reinterpret casts, argument passing, return, if/while/?:/switch "
+             "conditions, plain-array subscript, private members, hint.copy_and_verify}. The compiler ONLY decides which forms exist as programs "
+             "(undrivable forms are counted with their first diagnostic). Every drivable form is executed on the ILP32 model backend with a per-type "
+             "secret that exists only in sandbox memory; the run-time monitor classifies the static type of what the form produced: a plain value "
+             "(anything that is not a wrapper or hint) is a violation unless the form is an explicit unwrapper or a null test of a tainted pointer; a "
+             "comparison with a sandbox-resident operand must produce a hint; tainted pointers must be null or inside the sandbox. Thorough tier: the "
+             "same corpus built with RLBOX_NO_COMPILE_CHECKS, where the library's rejections must surface as aborts before a plain value exists.",
+        exhaustive=False,
+        assumptions=["the grammar is finite; leaks through new member-function names are outside it", "gcc's accept/reject is never the oracle"]))
+
+
+@plan("C02")
+def c02(c):
+    units, runs, n = forms_plan(c, "C02")
+    return dict(units=units, runs=runs, evidence=dict(
+        level="exploration",
+        rule="(a) form corpus: raw int*/const int*/void*/char* and raw function pointers into tainted / tainted_volatile / struct fields / pointer "
+             "arrays (C array, std::array) by construction, assignment, store, invoke argument; compound forms such as tainted<int> + raw pointer; "
+             "wrappers of another sandbox type as initialisers, stores and invoke arguments; nine ill-formed callback signatures; callbacks and "
+             "sandbox function addresses of a different function-pointer type into cells and parameters; well-formed controls. The compiler only "
+             "filters; every drivable form runs on the ILP32 model backend and the monitor checks: no tainted pointer holds the canary application "
+             "address, the backend was never asked to translate an address outside the sandbox, guest code was not reached, no ill-typed callback "
+             "came back registered. (b) run-time entry points assign_raw_pointer (tainted and tainted_volatile) and UNSAFE_accept_pointer: abort iff "
+             "the address is outside [base, base+size): every address (stride 7 quick, all thorough) in [base-4096, base+size+4096), a window of "
+             "another live sandbox, null, stack/heap/global, inside +- k*4GiB aliases, 20 000 / 1 000 000 random 64-bit addresses; when accepted the "
+             "tainted holds exactly the address and the sandbox cell exactly address-base.",
+        exhaustive=False,
+        exhaustive_subspaces=["thorough tier: every address of [base-4096, base+size+4096) through the three entry points"],
+        assumptions=["gcc's accept/reject is never the oracle"]))
